@@ -113,7 +113,15 @@ type verifStore struct {
 
 func (s *verifStore) Describe() string { return "verif" }
 func (s *verifStore) Destinations(context.Context) ([]any, error) {
-	return []any{ghPR{}}, nil
+	return []any{s.dst()}, nil
+}
+
+// the destination the platform's own reporter would hand out (GitLab's IsEqual looks at the merge request's diffs)
+func (s *verifStore) dst() any {
+	if s.eq == 1 {
+		return gitlabMR{}
+	}
+	return ghPR{}
 }
 func (s *verifStore) Summary(context.Context, any, Summary, []error) error { return nil }
 
@@ -239,7 +247,7 @@ func verifEqLemma(s *verifStore, list []ExistingComment, pending []PendingCommen
 	}
 	for _, e := range list {
 		for _, p := range pending {
-			verifAssert(s.IsEqual(ghPR{}, e, p) == verifRefCovers(s, e, p), "the platform's IsEqual means same file, same line, same text up to surrounding newlines"+round)
+			verifAssert(s.IsEqual(s.dst(), e, p) == verifRefCovers(s, e, p), "the platform's IsEqual means same file, same line, same text up to surrounding newlines"+round)
 		}
 	}
 }
@@ -332,6 +340,11 @@ func verifMkPending(tag string) PendingComment {
 		anchor: checks.Anchor(verifByte("panchor" + tag))}
 	verifAssume(p.line >= 1 && p.line <= verifMaxLine)
 	verifAssume(p.anchor <= checks.AnchorBefore)
+	if verifParam("eq") == 1 && verifParam("glplace") == 0 {
+		// the coarse placement model ("a GitLab note sits at pending.line") is only right for comments on lines that
+		// still exist: comments on removed lines (AnchorBefore) are the subject of the glplace=1 jobs
+		verifAssume(p.anchor != checks.AnchorBefore)
+	}
 	verifKnown(p)
 	return p
 }
